@@ -231,8 +231,37 @@ def parse_races(stderr_text):
     return races
 
 
+PARALLEL_OPS = ("entry",)
+
+
 def run_cases(lines, harness="harness", timeout=7200, race_prop="C09"):
     """lines: JSON strings with op,id,in. Returns list of (case_with_out, verdict)."""
+    if not lines:
+        return []
+    # ops that spend their time in child processes are spread over the cores (order is kept)
+    def op_of(l):
+        m = re.search(r'"op":\s*"(\w+)"', l[:80])
+        return m.group(1) if m else ""
+    par = [k for k, l in enumerate(lines) if op_of(l) in PARALLEL_OPS] if harness == "harness" else []
+    if len(par) >= 64:
+        import concurrent.futures
+        seq = [k for k in range(len(lines)) if op_of(lines[k]) not in PARALLEL_OPS]
+        n = min(os.cpu_count() or 4, 16, max(1, len(par) // 16))
+        step = (len(par) + n - 1) // n
+        chunks = [par[i:i + step] for i in range(0, len(par), step)]
+        with concurrent.futures.ThreadPoolExecutor(max_workers=n) as ex:
+            parts = list(ex.map(lambda c: _run_cases_seq([lines[k] for k in c], harness, timeout, race_prop), chunks))
+        res = [None] * len(lines)
+        for c, p in zip(chunks, parts):
+            for k, r in zip(c, p):
+                res[k] = r
+        for k, r in zip(seq, _run_cases_seq([lines[k] for k in seq], harness, timeout, race_prop)):
+            res[k] = r
+        return [r for r in res if r is not None]
+    return _run_cases_seq(lines, harness, timeout, race_prop)
+
+
+def _run_cases_seq(lines, harness="harness", timeout=7200, race_prop="C09"):
     if not lines:
         return []
     data = ("\n".join(lines) + "\n").encode("utf-8")
@@ -271,7 +300,7 @@ def run_cases(lines, harness="harness", timeout=7200, race_prop="C09"):
         # continue after the crashing case
         rest = lines[crashed["index"] + 1:]
         if rest:
-            res.extend(run_cases(rest, harness, timeout, race_prop))
+            res.extend(_run_cases_seq(rest, harness, timeout, race_prop))
     return res
 
 
